@@ -6,14 +6,15 @@ mkdir -p $S
 cd $W || exit 2
 git checkout -q -- . ; rm -f nfs/zz_demo_test.go simple/zz_demo_test.go kvs/zz_demo_test.go
 DEMO=$(ls $O/*_test.go | head -1); DPKG=$(grep -m1 '^package' $DEMO | awk '{print $2}'); 
-case $DPKG in nfs) DDIR=nfs;; simple) DDIR=simple;; kvs) DDIR=kvs;; dir) DDIR=dir;; *) DDIR=nfs;; esac
+case $DPKG in nfs) DDIR=nfs;; simple) DDIR=simple;; kvs) DDIR=kvs;; dir) DDIR=dir;; nfstypes) DDIR=nfstypes;; *) DDIR=nfs;; esac
+TAGS=""; grep -q 'go:build verif' $DEMO && TAGS="-tags verif"; [ -n "$4" ] && TAGS="$TAGS $4"
 git apply $O/patch.diff || { echo "patch does not apply"; exit 2; }
 go build ./... > $S/build.log 2>&1; B=$?
 go test -vet=off -count=1 ./... > $S/suite_with_change.log 2>&1; T=$?
 cp $DEMO $DDIR/zz_demo_test.go
-timeout 600 go test -vet=off -count=1 -run 'TestDemo' ./$DDIR > $S/demo_with_change.log 2>&1; D1=$?
+timeout 900 go test $TAGS -vet=off -count=1 -run 'TestDemo' ./$DDIR > $S/demo_with_change.log 2>&1; D1=$?
 git checkout -q -- .
-timeout 600 go test -vet=off -count=1 -run 'TestDemo' ./$DDIR > $S/demo_without_change.log 2>&1; D0=$?
+timeout 900 go test $TAGS -vet=off -count=1 -run 'TestDemo' ./$DDIR > $S/demo_without_change.log 2>&1; D0=$?
 rm -f $DDIR/zz_demo_test.go
 cp $O/patch.diff $S/patch.diff; cp $DEMO $S/; cp $O/README.md $S/README.md 2>/dev/null
 echo "{\"build_rc\": $B, \"suite_with_change_rc\": $T, \"demo_with_change_rc\": $D1, \"demo_without_change_rc\": $D0}" > $S/confirm.json
